@@ -1,8 +1,94 @@
 import JrsVerif.Common.J
+import JrsVerif.Model.FmtDiag
 
 namespace JrsVerif.Drv.C20
 open Lean JrsVerif.J
 
-def handle (_op : String) (_j : Json) : Option Json := none
+def resName : JrsVerif.FmtDiag.Res → String
+  | .formatted => "ok"
+  | .diag => "diag"
+  | .panic => "panic"
+
+def pairs (a : Array Json) : Option (List (Nat × Nat)) :=
+  a.toList.mapM fun x =>
+    match x with
+    | .arr #[s, e] => do pure ((← s.getNat?.toOption), (← e.getNat?.toOption))
+    | _ => none
+
+/-- table of observed `format(..).trim()` results: text ↦ some trimmed | none (parse error);
+    the outer Option is "not in the table" -/
+abbrev Table := List (String × Option String)
+
+def parseTable (a : Array Json) : Option Table :=
+  a.toList.mapM fun x =>
+    match x with
+    | .arr #[.str k, .str v] => some (k, some v)
+    | .arr #[.str k, .null] => some (k, none)
+    | _ => none
+
+/-- lookup with a "miss" flag threaded through a state-free trick: a missing entry answers a
+    sentinel parse error and is detected by `covered` beforehand -/
+def lookup (t : Table) (x : List Char) : Option (List Char) :=
+  match t.find? (fun kv => kv.1.toList == x) with
+  | some (_, some v) => some v.toList
+  | _ => none
+
+/-- every text the modelled loop asks for is in the table (replays the loop) -/
+def covered (t : Table) (limit : Nat) : Nat → List Char → Bool
+  | 0, _ => true
+  | fuel + 1, x =>
+    match t.find? (fun kv => kv.1.toList == x) with
+    | none => false
+    | some (_, none) => true
+    | some (_, some v) => if v.toList == x || limit == 0 then true else covered t limit fuel v.toList
+
+def handle (op : String) (j : Json) : Option Json :=
+  match op with
+  | "fmt.diag" =>
+    match nat? j "len" with
+    | none => some (bad "fmt.diag: len")
+    | some len =>
+      match arr? j "errs" with
+      | none =>
+        -- the parser itself panicked: outside the model; the reference meaning still applies
+        some (obj [("spec", obj [("res", .str "diag")])])
+      | some a =>
+        match pairs a with
+        | none => some (bad "fmt.diag: errs")
+        | some errs =>
+          some (obj [("model", obj [("res", .str (resName (JrsVerif.FmtDiag.format len errs)))]),
+                     ("spec", obj [("res", .str (resName (JrsVerif.FmtDiag.formatSpec errs)))])])
+  | "fmt.deep" => some (obj [("spec", obj [("res", .str "ok")])])
+  | "fmt.idem" =>
+    match str? j "once" with
+    | none => some (bad "fmt.idem: once")
+    | some once => some (obj [("spec", obj [("res", .str "ok"), ("twice", .str once)])])
+  | "fmt.main" =>
+    match (do
+      let input ← str? j "input"
+      let limit ← nat? j "limit"
+      let test ← bool? j "test"
+      let indent ← nat? j "indent"
+      let hard ← bool? j "hard_tabs"
+      let tabs ← val? j "tables"
+      pure (input, limit, test, indent, hard, tabs)) with
+    | none => some (bad "fmt.main: fields")
+    | some (input, limit, test, indent, hard, tabs) =>
+      let eff := JrsVerif.FmtMain.effIndent indent hard
+      match arr? tabs (toString eff) with
+      | none => some (obj [("skip", .bool true), ("_why", .str s!"no table for effective indent {eff}")])
+      | some a =>
+        match parseTable a with
+        | none => some (bad "fmt.main: table")
+        | some t =>
+          if !covered t limit (limit + 2) input.toList then
+            some (obj [("skip", .bool true), ("_why", .str "format table does not cover the modelled loop")])
+          else
+            let r := JrsVerif.FmtMain.main (lookup t) limit test input.toList
+            let m := obj [("code", toJson r.code), ("stdout", .str (String.ofList r.stdout))]
+            match val? j "expect" with
+            | some e => some (obj [("model", m), ("spec", e)])
+            | none => some (obj [("model", m)])
+  | _ => none
 
 end JrsVerif.Drv.C20
